@@ -101,7 +101,9 @@ structure Lsn where
   closed : Bool := false       -- channel closed
   removed : Bool := false      -- the remove func ran: channel no longer in `b.listeners`, goroutine stopped
   regAt : Nat := 0             -- ghost: number of transitions made before registration
-  seen : List Notif := []      -- ghost: callbacks executed, in order
+  seen : List Notif := []      -- ghost: callbacks begun, in order
+  busy : Bool := false         -- the listener's goroutine is inside a callback (`lfn(listener)`)
+  inCb : Nat := 0              -- ghost: number of callbacks of this listener executing right now
 deriving DecidableEq, Repr
 
 structure Svc where
@@ -155,7 +157,9 @@ inductive Ev
   | startAsync | stopAsync | parentCancel
   | tau
   | startRet (r : Option ErrId) | runRet (r : Option ErrId) | stopRet (r : Option ErrId)
-  | addListener | removeListener (id : Nat) | deliver (id : Nat)
+  | addListener | removeListener (id : Nat)
+  | deliver (id : Nat)       -- the listener's goroutine takes the next notification and ENTERS the callback
+  | deliverEnd (id : Nat)    -- the callback returns
 deriving DecidableEq, Repr
 
 /-- one step of `main()`. -/
@@ -193,14 +197,25 @@ def tau (s : Svc) : Svc :=
       { (s.transition (.terminated .stopping) true) with termClosed := s.termClosed + 1, pc := .done }
   | _ => s
 
+/-- the listener goroutine's loop `for { select { case lfn := <-listenerCh: lfn(listener) … } }`: it can
+receive the next notification only when it is not inside a callback. -/
 def deliverTo (id : Nat) : List Lsn → List Lsn
   | [] => []
   | l :: ls =>
     if l.id = id ∧ ¬ l.removed then
-      match l.queue with
-      | [] => l :: ls
-      | n :: q => { l with queue := q, seen := l.seen ++ [n] } :: ls
+      if l.busy then l :: ls
+      else match l.queue with
+        | [] => l :: ls
+        | n :: q => { l with queue := q, seen := l.seen ++ [n], busy := true, inCb := l.inCb + 1 } :: ls
     else l :: deliverTo id ls
+
+/-- the callback of listener `id` returns. -/
+def endTo (id : Nat) : List Lsn → List Lsn
+  | [] => []
+  | l :: ls =>
+    if l.id = id then
+      (if l.busy then { l with busy := false, inCb := l.inCb - 1 } :: ls else l :: ls)
+    else l :: endTo id ls
 
 def removeFrom (id : Nat) : List Lsn → List Lsn
   | [] => []
@@ -234,6 +249,7 @@ def step (s : Svc) : Ev → Svc
     else { s with lsns := s.lsns ++ [{ id := s.nextL, regAt := s.trans.length }], nextL := s.nextL + 1 }
   | .removeListener id => { s with lsns := removeFrom id s.lsns }
   | .deliver id => { s with lsns := deliverTo id s.lsns }
+  | .deliverEnd id => { s with lsns := endTo id s.lsns }
 
 def run (s : Svc) (evs : List Ev) : Svc := evs.foldl step s
 
@@ -254,6 +270,25 @@ def awaitRunning (s : Svc) : Option AwaitRes :=
 def awaitTerminated (s : Svc) : Option AwaitRes :=
   if s.termClosed = 0 then none
   else if s.st = .terminated then some .ok else some (.err s.failure)
+
+/-- what a call `Await…(ctx)` can do: `select { case <-ctx.Done(): …; case <-latch: … }` takes any ready case. -/
+inductive WaitOut | blocked | ctxErr | res (r : AwaitRes)
+deriving DecidableEq, Repr
+
+/-- possible outcomes of `AwaitRunning(ctx)` evaluated in state `s` with the waiter's context cancelled or not. -/
+def awaitRunningCtx (s : Svc) (ctxCancelled : Bool) : List WaitOut :=
+  match awaitRunning s, ctxCancelled with
+  | none, false => [.blocked]
+  | none, true => [.ctxErr]
+  | some r, false => [.res r]
+  | some r, true => [.ctxErr, .res r]
+
+def awaitTerminatedCtx (s : Svc) (ctxCancelled : Bool) : List WaitOut :=
+  match awaitTerminated s, ctxCancelled with
+  | none, false => [.blocked]
+  | none, true => [.ctxErr]
+  | some r, false => [.res r]
+  | some r, true => [.ctxErr, .res r]
 
 /-! ## Manager -/
 
@@ -415,7 +450,9 @@ def System.step (y : System) : SysEv → System
     match y.svcs[i]? with
     | some s =>
       match nextForManager s with
-      | some n => { svcs := y.svcs.set i (C17.step s (.deliver 0)), mgr := y.mgr.step (.changed i n) }
+      | some n =>
+        -- the callback is `serviceStateChanged`, atomic under the manager's mutex: begin, change, return
+        { svcs := y.svcs.set i (C17.step (C17.step s (.deliver 0)) (.deliverEnd 0)), mgr := y.mgr.step (.changed i n) }
       | none => y
     | none => y
   | .mgrLsn e =>
@@ -435,27 +472,57 @@ def svcFinish : List Ev :=
 def sysFinish (n : Nat) : List SysEv :=
   (List.range n).flatMap fun i => svcFinish.map (SysEv.svc i) ++ List.replicate 4 (SysEv.handover i)
 
-/-! ## FailureWatcher -/
+/-! ## FailureWatcher
 
-/-- `unregistered` = number of listener-remove funcs run by Close; `forwarded` = ghost log of sends on `ch`. -/
+`ch` is UNBUFFERED (`make(chan error)`): the watcher's listener callback blocks in `w.ch <- err` until a
+reader receives. `Close()` holds `w.mu` while it calls each listener's remove function, which waits for the
+listener goroutine (`wg.Wait()`): with a failure nobody has read yet `Close()` does not return, and every
+`WatchService` / `WatchManager` / further `Close()` queues on the mutex behind it. -/
+
 structure FW where
-  closed : Bool := false
-  chanCloses : Nat := 0
+  closed : Bool := false                 -- `w.closed` (Close has completed)
+  closing : Bool := false                -- a Close() holds the mutex, waiting for blocked listener goroutines
+  chanCloses : Nat := 0                  -- number of close(w.ch)   (2 = panic)
   watching : Nat := 0
-  forwarded : List (Nat × ErrId) := []
-  panics : Nat := 0
+  blocked : List (Nat × ErrId) := []     -- listener goroutines blocked in `w.ch <- err`, in arrival order
+  forwarded : List (Nat × ErrId) := []   -- what readers of `Chan()` have received, in order
+  entered : List (Nat × ErrId) := []     -- ghost: failures whose callback started while the watcher was open
+  waitingCalls : Nat := 0                -- Close / Watch calls queued on the mutex behind a blocked Close
+  closeReturned : Nat := 0               -- Close() calls that have returned
+  panics : Nat := 0                      -- Watch* calls that panicked (watcher closed)
 deriving DecidableEq, Repr
 
 inductive FEv
-  | watch                             -- WatchService / WatchManager
-  | failure (svc : Nat) (e : ErrId)   -- a watched service's Failed callback runs (listener still registered)
-  | close
+  | watch                             -- WatchService / WatchManager is called
+  | failure (svc : Nat) (e : ErrId)   -- a watched service's Failed callback starts (listener still registered)
+  | recv                              -- a reader receives from Chan()
+  | close                             -- Close() is called
 deriving DecidableEq, Repr
 
+/-- the blocked Close() gets through: unregister done, channel closed; the calls queued behind it run
+(a Watch* panics on the closed watcher, a Close returns at once — modelled together as returned calls). -/
+def FW.finishClose (w : FW) : FW :=
+  { w with closed := true, closing := false, chanCloses := w.chanCloses + 1, watching := 0,
+           closeReturned := w.closeReturned + 1, waitingCalls := 0 }
+
 def FW.step (w : FW) : FEv → FW
-  | .watch => if w.closed then { w with panics := w.panics + 1 } else { w with watching := w.watching + 1 }
-  | .failure i e => if w.closed then w else { w with forwarded := w.forwarded ++ [(i, e)] }
-  | .close => if w.closed then w else { w with closed := true, chanCloses := w.chanCloses + 1, watching := 0 }
+  | .watch =>
+    if w.closed then { w with panics := w.panics + 1 }
+    else if w.closing then { w with waitingCalls := w.waitingCalls + 1 }
+    else { w with watching := w.watching + 1 }
+  | .failure i e =>
+    if w.closed then w else { w with blocked := w.blocked ++ [(i, e)], entered := w.entered ++ [(i, e)] }
+  | .recv =>
+    match w.blocked with
+    | [] => w
+    | x :: rest =>
+      let w := { w with blocked := rest, forwarded := w.forwarded ++ [x] }
+      if w.closing && rest.isEmpty then w.finishClose else w
+  | .close =>
+    if w.closed then { w with closeReturned := w.closeReturned + 1 }
+    else if w.closing then { w with waitingCalls := w.waitingCalls + 1 }
+    else if w.blocked.isEmpty then w.finishClose
+    else { w with closing := true }
 
 def FW.run (w : FW) (evs : List FEv) : FW := evs.foldl FW.step w
 
